@@ -124,6 +124,13 @@ def sortRows (narrow : Int → Int) : List Int → List (Int × V) → Option (L
 
 end sort
 
+/-- `if (row_beg < 0) row_beg = 0; if (row_end < 0) row_end = n; precondition(row_beg >= 0 && row_end <= n)`
+(repaired code: `&& row_beg <= row_end`); `none` = the precondition fails -/
+def rowRange (fixed : Bool) (n rowBeg rowEnd : Int) : Option (Int × Int) :=
+  let b := if rowBeg < 0 then 0 else rowBeg
+  let e := if rowEnd < 0 then n else rowEnd
+  if decide (0 ≤ b) && decide (e ≤ n) && (!fixed || decide (b ≤ e)) then some (b, e) else none
+
 /-- conversion `ptrdiff_t → int` (two's complement truncation) -/
 def wrap32 (x : Int) : Int :=
   let u := x % 4294967296
